@@ -15,8 +15,8 @@ import (
 // that Translate does not expose: everything off, one lowering off, one lowering alone).
 //
 // configure receives the plan computed by optimize.Optimize for a private copy of the query and may edit it. If it
-// returns unoptimized=true the *original* query is translated by a Translator that never sees a plan (no AST rewrite,
-// no lowering, no fast path) - the baseline every other configuration is compared with. Otherwise the body below is the
+// returns unoptimized=true the query is translated with an empty plan (no AST rewrite rule, no lowering decision, no
+// fast path) - the baseline every other configuration is compared with. Otherwise the body below is the
 // body of Translate with the edited plan.
 func VerifTranslate(ctx context.Context, cypherQuery *cypher.RegularQuery, kindMapper pgsql.KindMapper, parameters map[string]any, graphID int32, configure func(plan *optimize.Plan) (unoptimized bool)) (Result, error) {
 	optimizedPlan, err := optimize.Optimize(cypherQuery)
@@ -25,8 +25,18 @@ func VerifTranslate(ctx context.Context, cypherQuery *cypher.RegularQuery, kindM
 	}
 
 	if configure != nil && configure(&optimizedPlan) {
+		// All optimisation disabled: no rewrite rule runs and the lowering plan is empty. The translator still receives a
+		// plan, because without one it falls back to its own unconditional limit and suffix pushdown (a Translator that
+		// never sees a plan is not an unoptimised one).
+		emptyPlan, err := optimize.NewOptimizer().Optimize(cypherQuery)
+		if err != nil {
+			return Result{}, err
+		}
+		emptyPlan.LoweringPlan = optimize.LoweringPlan{}
+		emptyPlan.PredicateAttachments = nil
 		translator := NewTranslator(ctx, kindMapper, parameters, graphID)
-		if err := walk.Cypher(cypherQuery, translator); err != nil {
+		translator.SetOptimizationPlan(emptyPlan)
+		if err := walk.Cypher(emptyPlan.Query, translator); err != nil {
 			return Result{}, err
 		}
 		return translator.translation, nil
